@@ -122,6 +122,9 @@ def mk_ev(lo, hi, n, m, via=None, plain=False):
             ev.GetInverseImage(np.array(pt, dtype=np.double))
             ev.GetPreimages(list(pt))
         ev.GetImage(0.3)
+    # the caller's own bound arrays are reused for something else afterwards: the object must have kept copies
+    lo_a += 17.25
+    hi_a -= 3.5
     return ev
 
 
